@@ -9,7 +9,7 @@ EXPLANATION = (
     "database fields of those quantities carry the SI unit the helpers assume. [UNIT-NORM] requested literals are lower-case and the decoder lower-cases "
     "the preference map it passes. [UNIT-AFFINE] each helper maps None to None and otherwise is an affine map (evaluated in the affine domain over its "
     "return term, through round(.,k) and math.degrees) whose slope/intercept equal the physical ones (K->C, K->F, Pa->bar, Pa->psi, rad->deg, m/s->kn) "
-    "within 1e-3 relative. UNDECIDED: nothing of substance besides float rounding."
+    "within 1e-3 relative. UNIT-TABLE / UNIT-EFFECT are decided by interpreting apply_preferred_units per (quantity, preference literal) on a message with one symbolic field per quantity and unit: recognised preferences rewrite value (through one converter applied to the field's own value) and label together, everything else is untouched. UNDECIDED: nothing of substance besides float rounding."
 )
 ASSUMPTIONS = ["CPython ast parser", "sym.py def-use substitution over the loop body", "affine evaluation of + - * / round math.degrees", "physical conversion constants"]
 
